@@ -225,6 +225,10 @@ pub enum Closer {
     AppClose,
     TargetClose,
     TargetHalfClose,
+    /// the target closes its socket while application bytes are still unread in it (the kernel resets)
+    TargetAbort,
+    /// the application closes its socket while target bytes are still unread in it
+    AppAbort,
 }
 
 #[derive(Clone, Debug)]
@@ -325,6 +329,31 @@ async fn e2e_case(w: &World, c: &E2eCase) -> Result<Vec<(String, String, String)
     let mut problems = Vec::new();
     let cause = format!("{}:{:?}", c.front, c.closer);
     let eof_wait = w.eof_wait;
+    if c.closer == Closer::TargetAbort || c.closer == Closer::AppAbort {
+        // only the end of the connection is judged: a reset may legitimately discard bytes in flight
+        let up2 = if up.is_empty() { vec![1u8; 100] } else { up.clone() };
+        let down2 = if down.is_empty() { vec![2u8; 100] } else { down.clone() };
+        if c.closer == Closer::TargetAbort {
+            app.write_all(&up2).await.map_err(|e| e.to_string())?;
+            tokio::time::sleep(Duration::from_millis(80)).await; // the bytes now sit unread in the target's socket
+            let _ = tconn.write_all(&down2).await;
+            drop(tconn);
+            let (_, ended) = read_until_eof(&mut app, 0, eof_wait).await;
+            if !ended {
+                problems.push((cause.clone(), "peer_no_eof".to_string(), "the target closed its socket with unread data (connection reset on the server side); the application did not observe the end of the connection within the bound".to_string()));
+            }
+        } else {
+            tconn.write_all(&down2).await.map_err(|e| e.to_string())?;
+            tokio::time::sleep(Duration::from_millis(80)).await;
+            let _ = app.write_all(&up2).await;
+            drop(app);
+            let (_, ended) = read_until_eof(&mut tconn, 0, eof_wait).await;
+            if !ended {
+                problems.push((cause.clone(), "peer_no_eof".to_string(), "the application closed its socket with unread data (connection reset on the client side); the target did not observe the end of the connection within the bound".to_string()));
+            }
+        }
+        return Ok(problems);
+    }
     // data in flight in both directions at the moment of closing
     let (mut app_r, mut app_w) = app.split();
     let (mut t_r, mut t_w) = tconn.split();
@@ -362,6 +391,7 @@ async fn e2e_case(w: &World, c: &E2eCase) -> Result<Vec<(String, String, String)
                 }
             }
         }
+        Closer::TargetAbort | Closer::AppAbort => {}
         Closer::TargetClose | Closer::TargetHalfClose => {
             app_w.write_all(&up).await.map_err(|e| e.to_string())?;
             t_w.write_all(&down).await.map_err(|e| e.to_string())?;
@@ -488,7 +518,7 @@ pub fn run(ctx: Ctx) -> Report {
         let mut uniq = 1u32;
         for _ in 0..if quick { 1 } else { 12 } {
             for front in ["socks5", "http_connect"] {
-                for closer in [Closer::AppHalfClose, Closer::AppClose, Closer::TargetClose, Closer::TargetHalfClose] {
+                for closer in [Closer::AppHalfClose, Closer::AppClose, Closer::TargetClose, Closer::TargetHalfClose, Closer::TargetAbort, Closer::AppAbort] {
                     for (u, d) in [(0usize, 0usize), (1, 1), (3000, 0), (0, 3000), (100_000, 50_000), (rng.usize(0, 300_000), rng.usize(0, 300_000))] {
                         uniq += 1;
                         cases.push(E2eCase { front, closer: closer.clone(), up_bytes: u, down_bytes: d, uniq });
@@ -544,7 +574,7 @@ pub fn run(ctx: Ctx) -> Report {
 pub fn meta() -> CheckMeta {
     CheckMeta {
         level: "exploration",
-        rule: "(1) session level, virtual time: a scripted peer sends PSH..PSH,FIN for 1-8 streams of a real client or server Session (chunks 0..65535 bytes interleaved across streams, some streams without FIN, 3 transport fragmentation classes, reader buffers 1..70000): each reader must see exactly its bytes (online tag check) and end of stream iff its FIN was sent and only after all bytes; afterwards the victim sends on every stream (the other direction must keep working) and the stream tables must hold exactly the streams whose FIN has not arrived. (2) end to end, real time, SOCKS5 and HTTP CONNECT: application half-close / close and target close / half-close with 0..300000 bytes in flight in both directions; the opposite endpoint must receive every byte sent before the close and then observe end of stream within the bound, the other direction must still carry data, and after both ended the second endpoint must see end of stream too; 12 complete request cycles must not leave tasks alive in proportion to their number. distinct_nontrivial = distinct cases.".into(),
+        rule: "(1) session level, virtual time: a scripted peer sends PSH..PSH,FIN for 1-8 streams of a real client or server Session (chunks 0..65535 bytes interleaved across streams, some streams without FIN, 3 transport fragmentation classes, reader buffers 1..70000): each reader must see exactly its bytes (online tag check) and end of stream iff its FIN was sent and only after all bytes; afterwards the victim sends on every stream (the other direction must keep working) and the stream tables must hold exactly the streams whose FIN has not arrived. (2) end to end, real time, SOCKS5 and HTTP CONNECT: application half-close / close / abort (close with unread data, i.e. a reset) and target close / half-close / abort with 0..300000 bytes in flight in both directions; the opposite endpoint must receive every byte sent before the close and then observe end of stream within the bound, the other direction must still carry data, and after both ended the second endpoint must see end of stream too; 12 complete request cycles must not leave tasks alive in proportion to their number. distinct_nontrivial = distinct cases.".into(),
         assumptions: vec!["'observes end of stream' at the e2e level is decided with a 4 s (quick) / 10 s (thorough) bound on loopback".into(), "target connections are matched to cases by the unique 127.66.a.b address that was dialled".into()],
         floors: vec![("receiving_half_cases", 500), ("fins_sent_by_scripted_peer", 500), ("e2e_close_cases", 40), ("task_release_cycles", 10)],
         exhaustive: false,
